@@ -558,3 +558,18 @@ fn hex(b: &[u8]) -> String {
     }
     s
 }
+
+/// Declare right *after* the runtime: dropped before it (also when a panic unwinds), it freezes
+/// the run's trace, so that the order in which tokio drops the remaining tasks — derived from
+/// process-global task ids — never reaches the trace.
+pub struct FreezeOnDrop(Sim);
+
+impl Drop for FreezeOnDrop {
+    fn drop(&mut self) {
+        self.0.freeze();
+    }
+}
+
+pub fn freeze_guard(sim: &Sim) -> FreezeOnDrop {
+    FreezeOnDrop(sim.clone())
+}
